@@ -1,417 +1,51 @@
 import RulioProofs.Breaker
 
-/-! # The repaired `slide` (`updated` advances by whole ticks): ghost model, invariant, refinement
+/-! # Consequences of the repairs of `core/breaker.go` for breakers made by `NewOutboundBreaker`
 
-Everything here is about `OB.slideFixed` / `OB.callFixed` of `RulioModel/Breaker.lean`, the patch proposed for the
-recovery defect.  With it the age of an admission is known up to one tick from *both* sides, which gives
-* recovery after exactly one window (`fixed_recovers`), for every arrival pattern, and
-* the rate bound over windows of `(ticks-1)·res` (`fixed_window`) — one tick shorter than today's bound. -/
+* an accepted breaker has a positive resolution, so `Do` cannot divide by zero (`accepted_never_panics`);
+* the window `ticks·⌊interval/ticks⌋` is at most `interval`, so recovery can be stated with the interval itself
+  (`recovers_init`). -/
 
 open Gen.C20
 
-structure GF where
-  limit : Nat
-  res : Nat
-  ticks : Nat
-  all : List (Nat × Nat)   -- (admission time, shift), newest first
-  updated : Nat
-  last : Nat               -- time of the last call
+/-- with a positive resolution and a non-empty `counts`, `Do` cannot panic -/
+theorem callE_ok (b : OB) (hr : 0 < b.res) (ht : 0 < b.ticks) (hl : 0 < b.counts.length) (now : Nat) :
+    b.callE now = .ok (b.call now) := by
+  unfold OB.callE
+  have h1 : ¬ (b.ticks = 0 ∨ b.res = 0) := by omega
+  have h2 : incrIndex < b.counts.length := hl
+  simp [h1, h2]
 
-namespace GF
-def W (g : GF) : Nat := g.ticks * g.res
-def W' (g : GF) : Nat := (g.ticks - 1) * g.res
-def adm (g : GF) : List Nat := g.all.map (·.1)
-def total (g : GF) : Nat := (g.all.filter (fun p => p.2 < g.ticks)).length
+/-- a breaker that `NewOutboundBreaker` returned never panics in `Do`, after any calls and polls -/
+theorem accepted_never_panics (limit interval : Int) (b : OB) (h : OB.initE limit interval = some b)
+    (pre : List BEv) (now : Nat) : (b.afterEv pre).callE now = .ok ((b.afterEv pre).call now) := by
+  obtain ⟨hr, ht, _, _, hlen⟩ := init_res_pos limit interval b h
+  obtain ⟨e1, e2, _, e4⟩ := afterEv_fields b pre
+  apply callE_ok
+  · rw [e2]; exact hr
+  · rw [e4]; exact ht
+  · rw [e1, hlen]; decide
 
-def slide (g : GF) (now : Nat) : GF :=
-  let raw := (now - g.updated) / g.res
-  let k := min raw g.ticks
-  { g with all := g.all.map (fun p => (p.1, p.2 + k)),
-           updated := if g.ticks < raw then now else g.updated + k * g.res, last := now }
+/-- the enforced window is never longer than the interval -/
+theorem window_le_interval (limit interval : Nat) :
+    (OB.init limit interval).ticks * (OB.init limit interval).res ≤ interval := by
+  obtain ⟨_, _, hticks, hres, _, _⟩ := init_fields limit interval
+  rw [hticks, hres]
+  exact Nat.mul_div_le interval breakerTicks
 
-def call (g : GF) (now : Nat) : GF :=
-  let g := g.slide now
-  if g.total < g.limit then { g with all := (now, 0) :: g.all } else g
+theorem pairwise_zero_cons (l : List Nat) (h : l.Pairwise (· ≤ ·)) : ((0 : Nat) :: l).Pairwise (· ≤ ·) :=
+  List.pairwise_cons.mpr ⟨fun _ _ => Nat.zero_le _, h⟩
 
-def run (g : GF) : List Nat → GF
-  | [] => g
-  | t :: ts => (g.call t).run ts
-end GF
-
-structure FInv (g : GF) : Prop where
-  res_pos : 0 < g.res
-  tpos : 0 < g.ticks
-  clk : g.updated ≤ g.last ∧ g.last < g.updated + g.res
-  lb : ∀ p ∈ g.all, p.1 + p.2 * g.res < g.updated + g.res
-  ub : ∀ p ∈ g.all, p.2 < g.ticks → g.updated ≤ p.1 + p.2 * g.res
-  le_last : ∀ p ∈ g.all, p.1 ≤ g.last
-  sorted : g.adm.Pairwise (· ≥ ·)
-  suff : ∀ newer t older, g.adm = newer ++ t :: older → windowCount g.W' (t :: older) t ≤ g.limit
-
-theorem GF.slide_adm (g : GF) (now : Nat) : (g.slide now).adm = g.adm := by
-  simp [GF.slide, GF.adm, List.map_map, Function.comp_def]
-
-theorem fslide_inv (g : GF) (now : Nat) (h : FInv g) (hn : g.last ≤ now) : FInv (g.slide now) := by
-  have hr := h.res_pos
-  have hu : g.updated ≤ now := Nat.le_trans h.clk.1 hn
-  have hdm := Nat.div_add_mod (now - g.updated) g.res
-  have hml := Nat.mod_lt (now - g.updated) hr
-  rw [Nat.mul_comm] at hdm
-  refine ⟨hr, h.tpos, ?_, ?_, ?_, ?_, ?_, ?_⟩
-  · -- clk
-    simp only [GF.slide]
-    generalize (now - g.updated) / g.res = raw at *
-    generalize (now - g.updated) % g.res = r at *
-    by_cases hc : g.ticks < raw
-    · simp only [hc, if_true]; omega
-    · simp only [hc, if_false]
-      have hk : min raw g.ticks = raw := Nat.min_eq_left (Nat.le_of_not_lt hc)
-      rw [hk]
-      generalize raw * g.res = B at *
-      omega
-  · -- lb
-    intro p hp
-    simp only [GF.slide, List.mem_map] at hp
-    obtain ⟨q, hq, rfl⟩ := hp
-    have hold := h.lb q hq
-    show q.1 + (q.2 + min ((now - g.updated) / g.res) g.ticks) * g.res <
-      (if g.ticks < (now - g.updated) / g.res then now else g.updated + min ((now - g.updated) / g.res) g.ticks * g.res) + g.res
-    generalize (now - g.updated) / g.res = raw at *
-    generalize (now - g.updated) % g.res = r at *
-    rw [Nat.add_mul]
-    by_cases hc : g.ticks < raw
-    · simp only [hc, if_true]
-      have hk : min raw g.ticks = g.ticks := Nat.min_eq_right (Nat.le_of_lt hc)
-      rw [hk]
-      have h1 : (g.ticks + 1) * g.res ≤ raw * g.res := Nat.mul_le_mul_right _ hc
-      rw [Nat.add_mul, Nat.one_mul] at h1
-      generalize raw * g.res = B at *
-      generalize g.ticks * g.res = T at *
-      generalize q.2 * g.res = A at *
-      omega
-    · simp only [hc, if_false]
-      have hk : min raw g.ticks = raw := Nat.min_eq_left (Nat.le_of_not_lt hc)
-      rw [hk]
-      generalize raw * g.res = B at *
-      generalize q.2 * g.res = A at *
-      omega
-  · -- ub
-    intro p hp hlt
-    simp only [GF.slide, List.mem_map] at hp
-    obtain ⟨q, hq, rfl⟩ := hp
-    have hlt' : q.2 + min ((now - g.updated) / g.res) g.ticks < g.ticks := hlt
-    show (if g.ticks < (now - g.updated) / g.res then now else g.updated + min ((now - g.updated) / g.res) g.ticks * g.res) ≤
-      q.1 + (q.2 + min ((now - g.updated) / g.res) g.ticks) * g.res
-    clear hlt
-    generalize (now - g.updated) / g.res = raw at *
-    generalize (now - g.updated) % g.res = r at *
-    have hkk : min raw g.ticks = raw ∧ ¬ g.ticks < raw := by
-      rw [Nat.min_def] at hlt' ⊢; split at hlt' <;> simp_all <;> omega
-    rw [hkk.1] at hlt' ⊢
-    simp only [hkk.2, if_false]
-    have hold := h.ub q hq (by omega)
-    rw [Nat.add_mul]
-    generalize raw * g.res = B at *
-    generalize q.2 * g.res = A at *
-    omega
-  · -- le_last
-    intro p hp
-    simp only [GF.slide, List.mem_map] at hp
-    obtain ⟨q, hq, rfl⟩ := hp
-    have := h.le_last q hq
-    show q.1 ≤ now
-    omega
-  · rw [GF.slide_adm]; exact h.sorted
-  · intro newer t older he
-    rw [GF.slide_adm] at he
-    exact h.suff newer t older he
-
-/-- after a slide, every admission younger than `W'` is still counted -/
-theorem frecent_le_total (g : GF) (h : FInv g) :
-    windowCount g.W' g.adm g.last ≤ g.total := by
-  unfold windowCount GF.total GF.adm
-  rw [List.filter_map, List.length_map]
-  apply filter_len_mono
-  intro p hp hrecent
-  have hlb := h.lb p hp
-  have hclk := h.clk
-  have htp := h.tpos
-  simp only [Function.comp_apply, decide_eq_true_eq, GF.W'] at hrecent ⊢
-  have hr := of_decide_eq_true hrecent
-  clear hrecent
-  apply Classical.byContradiction
-  intro hge
-  have hge' : g.ticks ≤ p.2 := Nat.le_of_not_lt hge
-  have h1 : g.ticks * g.res ≤ p.2 * g.res := Nat.mul_le_mul_right _ hge'
-  have h2 : g.ticks * g.res = (g.ticks - 1) * g.res + g.res := by
-    have : g.ticks = (g.ticks - 1) + 1 := by omega
-    conv => lhs; rw [this, Nat.add_mul, Nat.one_mul]
-  generalize p.2 * g.res = A at *
-  generalize (g.ticks - 1) * g.res = B at *
-  generalize g.ticks * g.res = T at *
+/-- recovery of a breaker made by `NewOutboundBreaker(limit, interval)`, measured in the interval itself -/
+theorem recovers_init (limit interval : Nat) (hl : 0 < limit) (hi : breakerTicks ≤ interval)
+    (pre : List BEv) (now : Nat) (hmono : (pre.map BEv.time ++ [now]).Pairwise (· ≤ ·))
+    (hidle : ∀ t ∈ (OB.init limit interval).admittedEv pre, t + interval ≤ now) :
+    (((OB.init limit interval).afterEv pre).call now).2 = true := by
+  obtain ⟨hz, _, hticks, hres, hlim, hupd⟩ := init_fields limit interval
+  have hw := window_le_interval limit interval
+  apply recovers_counts (OB.init limit interval) hz (by rw [hticks]; decide)
+    (by rw [hres]; exact Nat.div_pos hi (by decide)) (by rw [hlim]; exact hl) pre now
+    (by rw [hupd]; exact pairwise_zero_cons _ hmono)
+  intro t ht
+  have := hidle t ht
   omega
-
-/-- after a slide, every admission still counted is younger than one window -/
-theorem ftotal_le_recent (g : GF) (h : FInv g) :
-    g.total ≤ windowCount g.W g.adm g.last := by
-  unfold windowCount GF.total GF.adm
-  rw [List.filter_map, List.length_map]
-  apply filter_len_mono
-  intro p hp hlt
-  simp only [decide_eq_true_eq] at hlt
-  have hub := h.ub p hp hlt
-  have hclk := h.clk
-  simp only [Function.comp_apply, GF.W]
-  refine decide_eq_true ?_
-  have h1 : p.2 * g.res + g.res ≤ g.ticks * g.res := by
-    have : (p.2 + 1) * g.res ≤ g.ticks * g.res := Nat.mul_le_mul_right _ hlt
-    rw [Nat.add_mul] at this; omega
-  generalize p.2 * g.res = A at *
-  generalize g.ticks * g.res = T at *
-  omega
-
-theorem fcall_inv (g : GF) (now : Nat) (h : FInv g) (hn : g.last ≤ now) : FInv (g.call now) := by
-  have hs := fslide_inv g now h hn
-  have hlast : (g.slide now).last = now := rfl
-  unfold GF.call
-  simp only []
-  split
-  · rename_i hlt
-    refine ⟨hs.res_pos, hs.tpos, hs.clk, ?_, ?_, ?_, ?_, ?_⟩
-    · intro p hp
-      simp only [List.mem_cons] at hp
-      rcases hp with rfl | hp
-      · have := hs.clk; rw [hlast] at this
-        show now + 0 * _ < _
-        simp; exact this.2
-      · exact hs.lb p hp
-    · intro p hp hpl
-      simp only [List.mem_cons] at hp
-      rcases hp with rfl | hp
-      · have := hs.clk; rw [hlast] at this
-        show _ ≤ now + 0 * _
-        simp; exact this.1
-      · exact hs.ub p hp hpl
-    · intro p hp
-      simp only [List.mem_cons] at hp
-      rcases hp with rfl | hp
-      · show now ≤ (g.slide now).last
-        rw [hlast]; exact Nat.le_refl _
-      · exact hs.le_last p hp
-    · simp only [GF.adm, List.map_cons, List.pairwise_cons]
-      refine ⟨?_, hs.sorted⟩
-      intro t ht
-      simp only [List.mem_map] at ht
-      obtain ⟨q, hq, rfl⟩ := ht
-      have := hs.le_last q hq
-      rw [hlast] at this
-      exact this
-    · intro newer t older he
-      simp only [GF.adm, List.map_cons] at he
-      cases newer with
-      | nil =>
-        simp only [List.nil_append, List.cons.injEq] at he
-        obtain ⟨rfl, rfl⟩ := he
-        have hr := frecent_le_total _ hs
-        rw [hlast] at hr
-        unfold windowCount at *
-        simp only [List.filter_cons]
-        have hW : ({ (g.slide now) with all := (now, 0) :: (g.slide now).all } : GF).W' = (g.slide now).W' := rfl
-        rw [hW]
-        unfold GF.adm at hr
-        split
-        · simp only [List.length_cons]; omega
-        · omega
-      | cons n newer' =>
-        simp only [List.cons_append, List.cons.injEq] at he
-        exact hs.suff newer' t older he.2
-  · exact hs
-
-theorem fcall_fields (g : GF) (now : Nat) :
-    (g.call now).last = now ∧ (g.call now).res = g.res ∧ (g.call now).ticks = g.ticks ∧ (g.call now).limit = g.limit := by
-  unfold GF.call; simp only []; split <;> exact ⟨rfl, rfl, rfl, rfl⟩
-
-theorem frun_inv (g : GF) (ts : List Nat) (h : FInv g) (hmono : (g.last :: ts).Pairwise (· ≤ ·)) : FInv (g.run ts) := by
-  induction ts generalizing g with
-  | nil => exact h
-  | cons t ts ih =>
-    have hp := List.pairwise_cons.mp hmono
-    have ht : g.last ≤ t := hp.1 t (List.mem_cons_self ..)
-    apply ih (g.call t) (fcall_inv g t h ht)
-    rw [(fcall_fields g t).1]
-    exact hp.2
-
-theorem frun_fields (g : GF) (ts : List Nat) :
-    (g.run ts).res = g.res ∧ (g.run ts).ticks = g.ticks ∧ (g.run ts).limit = g.limit := by
-  induction ts generalizing g with
-  | nil => exact ⟨rfl, rfl, rfl⟩
-  | cons t ts ih =>
-    obtain ⟨_, e2, e3, e4⟩ := fcall_fields g t
-    have := ih (g.call t)
-    simp only [GF.run]
-    exact ⟨this.1.trans e2, this.2.1.trans e3, this.2.2.trans e4⟩
-
-/-! ## refinement of the concrete `slideFixed` -/
-
-structure RefinesF (b : OB) (g : GF) : Prop where
-  counts : b.counts = countsOf g.all g.ticks
-  res : b.res = g.res
-  limit : b.limit = g.limit
-  updated : b.updated = g.updated
-  tpos : 0 < g.ticks
-
-theorem fslide_refines (b : OB) (g : GF) (h : RefinesF b g) (now : Nat) : RefinesF (b.slideFixed now) (g.slide now) := by
-  have hlen : b.counts.length = g.ticks := by rw [h.counts, countsOf_length]
-  refine ⟨?_, ?_, ?_, ?_, h.tpos⟩
-  · show goZeroWhile (goCopySelf b.counts (copyDst _) (copySrc _)) (zeroLo _) (fun i => zeroCond i _) = _
-    rw [slide_counts_eq, clampTicks_eq_min, hlen, h.counts, shiftL_countsOf]
-    simp only [rawTicks, elapsed, h.res, h.updated]
-    rfl
-  · show b.res = g.res
-    exact h.res
-  · exact h.limit
-  · show (if b.counts.length < rawTicks (elapsed now b.updated) b.res then now
-        else b.updated + clampTicks b.counts.length (rawTicks (elapsed now b.updated) b.res) * b.res) = _
-    rw [clampTicks_eq_min, hlen]
-    simp only [rawTicks, elapsed, h.res, h.updated]
-    rfl
-
-theorem ftotal_refines (b : OB) (g : GF) (h : RefinesF b g) : b.total = g.total := by
-  unfold OB.total GF.total
-  rw [h.counts, countsOf_sum, List.countP_eq_length_filter]
-
-theorem fcall_refines (b : OB) (g : GF) (h : RefinesF b g) (now : Nat) :
-    RefinesF (b.callFixed now).1 (g.call now) ∧
-    (b.callFixed now).2 = decide ((g.slide now).total < (g.slide now).limit) := by
-  have hs := fslide_refines b g h now
-  have ht := ftotal_refines _ _ hs
-  have hdec : admitTest (b.slideFixed now).total (b.slideFixed now).limit =
-      decide ((g.slide now).total < (g.slide now).limit) := by
-    simp [admitTest, ht, hs.limit]
-  unfold OB.callFixed GF.call
-  simp only [hdec]
-  by_cases hc : (g.slide now).total < (g.slide now).limit
-  · simp only [hc, decide_true, if_true, and_true]
-    refine ⟨?_, hs.res, hs.limit, hs.updated, hs.tpos⟩
-    show goIncrAt (b.slideFixed now).counts incrIndex = countsOf ((now, 0) :: (g.slide now).all) (g.slide now).ticks
-    rw [hs.counts]
-    exact goIncrAt_countsOf _ _ _
-  · simp only [hc, decide_false, if_false, and_true]
-    exact hs
-
-theorem fgcall_adm (g : GF) (now : Nat) :
-    (g.call now).adm = if (g.slide now).total < (g.slide now).limit then now :: g.adm else g.adm := by
-  unfold GF.call
-  simp only []
-  split
-  · show now :: (g.slide now).adm = now :: g.adm
-    rw [GF.slide_adm]
-  · exact GF.slide_adm g now
-
-theorem fadmitted_refines (b : OB) (g : GF) (h : RefinesF b g) (ts : List Nat) :
-    OB.admittedFixed.go b ts g.adm = (g.run ts).adm := by
-  induction ts generalizing b g with
-  | nil => rfl
-  | cons t ts ih =>
-    have hc := fcall_refines b g h t
-    simp only [OB.admittedFixed.go, GF.run]
-    rw [← ih _ _ hc.1, fgcall_adm, hc.2]
-    by_cases hlt : (g.slide t).total < (g.slide t).limit <;> simp [hlt]
-
-def OB.afterFixed (b : OB) : List Nat → OB
-  | [] => b
-  | t :: ts => OB.afterFixed (b.callFixed t).1 ts
-
-theorem fafter_refines (b : OB) (g : GF) (h : RefinesF b g) (ts : List Nat) : RefinesF (b.afterFixed ts) (g.run ts) := by
-  induction ts generalizing b g with
-  | nil => exact h
-  | cons t ts ih => exact ih _ _ (fcall_refines b g h t).1
-
-def fghost0 (b : OB) : GF :=
-  { limit := b.limit, res := b.res, ticks := b.ticks, all := [], updated := b.updated, last := b.updated }
-
-theorem frefines_zero (b : OB) (hz : b.counts = List.replicate b.ticks 0) (ht : 0 < b.ticks) : RefinesF b (fghost0 b) := by
-  refine ⟨?_, rfl, rfl, rfl, ht⟩
-  rw [hz]
-  simp only [fghost0, countsOf, List.countP_nil]
-  apply List.ext_getElem <;> simp
-
-theorem finv_ghost0 (b : OB) (hr : 0 < b.res) (ht : 0 < b.ticks) : FInv (fghost0 b) := by
-  refine ⟨hr, ht, ⟨Nat.le_refl _, ?_⟩, ?_, ?_, ?_, ?_, ?_⟩
-  · show b.updated < b.updated + b.res
-    omega
-  · intro p hp; simp [fghost0] at hp
-  · intro p hp; simp [fghost0] at hp
-  · intro p hp; simp [fghost0] at hp
-  · simp [fghost0, GF.adm]
-  · intro newer t older he
-    simp [fghost0, GF.adm] at he
-
-/-- rate bound of the repaired breaker: windows of `(ticks-1)·res` -/
-theorem fixed_window_counts (b : OB) (hz : b.counts = List.replicate b.ticks 0) (ht : 0 < b.ticks) (hr : 0 < b.res)
-    (ts : List Nat) (hmono : (b.updated :: ts).Pairwise (· ≤ ·)) (a : Nat) :
-    ((b.admittedFixed ts).filter (fun t => a ≤ t ∧ t < a + (b.ticks - 1) * b.res)).length ≤ b.limit := by
-  have h := fadmitted_refines b (fghost0 b) (frefines_zero b hz ht) ts
-  have hi := frun_inv (fghost0 b) ts (finv_ghost0 b hr ht) hmono
-  obtain ⟨e1, e2, e3⟩ := frun_fields (fghost0 b) ts
-  have hw := window_of_suff ((fghost0 b).run ts).W' ((fghost0 b).run ts).limit ((fghost0 b).run ts).adm hi.sorted hi.suff a
-  have hW : ((fghost0 b).run ts).W' = (b.ticks - 1) * b.res := by
-    show (((fghost0 b).run ts).ticks - 1) * ((fghost0 b).run ts).res = _
-    rw [e1, e2]; rfl
-  rw [hW, e3] at hw
-  unfold OB.admittedFixed
-  have : (fghost0 b).adm = [] := rfl
-  rw [this] at h
-  rw [h]
-  exact hw
-
-/-- recovery of the repaired breaker: whatever the arrival pattern, a call is admitted as soon as fewer than `limit`
-earlier admissions are younger than one window -/
-theorem fixed_recovers_counts (b : OB) (hz : b.counts = List.replicate b.ticks 0) (ht : 0 < b.ticks) (hr : 0 < b.res)
-    (pre : List Nat) (now : Nat) (hmono : (b.updated :: (pre ++ [now])).Pairwise (· ≤ ·))
-    (hfew : ((b.admittedFixed pre).filter (fun t => now < t + b.ticks * b.res)).length < b.limit) :
-    ((b.afterFixed pre).callFixed now).2 = true := by
-  have hR := frefines_zero b hz ht
-  have hA := fafter_refines b _ hR pre
-  have hc := (fcall_refines _ _ hA now).2
-  have hadm := fadmitted_refines b _ hR pre
-  have hm1 : ((fghost0 b).last :: pre).Pairwise (· ≤ ·) := by
-    have := hmono.sublist (List.Sublist.cons_cons b.updated (List.sublist_append_left pre [now]))
-    exact this
-  have hi := frun_inv (fghost0 b) pre (finv_ghost0 b hr ht) hm1
-  have hlast : ((fghost0 b).run pre).last ≤ now := by
-    -- the last call time is an element of (updated :: pre), all of which are ≤ now
-    have hall : ∀ x ∈ b.updated :: pre, x ≤ now := by
-      intro x hx
-      have hp := List.pairwise_append.mp (by simpa using hmono : ((b.updated :: pre) ++ [now]).Pairwise (· ≤ ·))
-      exact hp.2.2 x hx now (List.mem_singleton.mpr rfl)
-    have hmem : ((fghost0 b).run pre).last ∈ b.updated :: pre := by
-      clear hm1 hi hadm hc hA hR hfew hmono hall
-      have : ∀ (g : GF) (ts : List Nat), (g.run ts).last ∈ g.last :: ts := by
-        intro g ts
-        induction ts generalizing g with
-        | nil => simp [GF.run]
-        | cons t ts ih =>
-          have := ih (g.call t)
-          rw [(fcall_fields g t).1] at this
-          simp only [GF.run]
-          exact List.mem_cons_of_mem _ this
-      exact this (fghost0 b) pre
-    exact hall _ hmem
-  have hs := fslide_inv _ now hi hlast
-  have hg := ftotal_le_recent _ hs
-  obtain ⟨e1, e2, e3⟩ := frun_fields (fghost0 b) pre
-  rw [hc]
-  simp only [decide_eq_true_eq]
-  have hl : (((fghost0 b).run pre).slide now).limit = b.limit := e3
-  rw [hl]
-  have hW : (((fghost0 b).run pre).slide now).W = b.ticks * b.res := by
-    show ((fghost0 b).run pre).ticks * ((fghost0 b).run pre).res = _
-    rw [e1, e2]; rfl
-  have hlast' : (((fghost0 b).run pre).slide now).last = now := rfl
-  rw [hW, hlast', GF.slide_adm] at hg
-  have h0 : (fghost0 b).adm = [] := rfl
-  rw [h0] at hadm
-  unfold OB.admittedFixed at hfew
-  rw [hadm] at hfew
-  exact Nat.lt_of_le_of_lt hg hfew
